@@ -1109,7 +1109,7 @@ def short(path):
 # --------------------------------------------------------------------------------------------
 
 DESCRIBE_DEPTH = 100
-MULTI_ALTS = 24     # alternatives kept for a local assigned on several paths
+MULTI_ALTS = 64     # alternatives kept for a local assigned on several paths
 
 
 def describe(prog, body, x, depth=0, seen=None):
